@@ -12,6 +12,7 @@ CONSTANTS
   Paths <- PathsMC
   Cat <- CatMC
   Inert <- NestedFlows
+  CleanSkips = {}
   Unseen = {}
   NestedPP = {}
   NestedFlows = {}
